@@ -375,6 +375,27 @@ def record_executions(cache, wd, thorough, nops):
         hreq += p.stdout.count('"ev":"end"')
         files.append(("handlers limit=%d tl=%d threads=%d" % (lim, tl, th), "Trace_StaticCache.tla", "Trace_StaticCache.cfg", path,
                       p.stdout.count("\n"), 1))
+    # size bound under racing handlers: N threads leave a barrier together, each storing its own file of 5/8 of the limit,
+    # while an observer adds up what Cache::get returns under the read guard (`sweep` records)
+    rcombos = [(600, 65536, 2), (200, 4096, 3), (400, 64, 2), (60, 65536, 4)] if thorough else [(200, 65536, 2), (60, 4096, 3)]
+    for i, (rounds, lim, th) in enumerate(rcombos):
+        p = run_bin(cache, ["sizerace", os.path.join(wd, "sr%d" % i), str(rounds), str(lim), str(th)],
+                    env={"VERIF_SEED": str(vlib.seed() * 137 + i)})
+        try:
+            check_hang(p, "handlers racing for the size bound, %d threads, limit %d" % (th, lim))
+        except Hang as h:
+            hangs.append(h)
+            continue
+        if p.returncode != 0:
+            raise vlib.ToolError("cache sizerace failed: " + p.stderr[-800:])
+        path = os.path.join(wd, "sizerace-%d.ndjson" % i)
+        with open(path, "w") as f:
+            f.write(p.stdout)
+        if p.stdout.count('"ev":"sweep"') == 0:
+            raise vlib.ToolError("vacuity guard: the size-race run recorded no sweep of the cache")
+        hreq += p.stdout.count('"ev":"end"')
+        files.append(("handlers racing for the size bound limit=%d threads=%d" % (lim, th), "Trace_StaticCache.tla", "Trace_StaticCache.cfg", path,
+                      p.stdout.count("\n"), 1))
     return files, hreq, hangs
 
 
